@@ -23,7 +23,7 @@ from puresnmp.adt import (
 )
 from puresnmp.credentials import V3, Credentials
 from puresnmp.exc import SnmpError
-from puresnmp.pdu import GetRequest, PDUContent
+from puresnmp.pdu import GetRequest, PDUContent, Report
 from puresnmp.plugins.security import SecurityModel
 from puresnmp.transport import MESSAGE_MAX_SIZE
 from puresnmp.util import get_request_id, localise_key, validate_response_id
@@ -342,6 +342,32 @@ def verify_authentication(
         )
 
 
+def verify_security_level(
+    message: Union[PlainMessage, EncryptedMessage], credentials: V3
+) -> None:
+    """
+    Ensure that a message arrived with the security level of the credentials.
+
+    Only Report PDUs may legitimately arrive with a lower security level
+    (:rfc:`3412#section-7.2`). Accepting anything else would allow an
+    attacker to bypass authentication by simply clearing the message flags.
+
+    :raises AuthenticationError: If the security level does not match
+    """
+    flags = message.header.flags
+    expected = (credentials.auth is not None, credentials.priv is not None)
+    if (flags.auth, flags.priv) == expected:
+        return
+    if isinstance(message.scoped_pdu, ScopedPDU) and isinstance(
+        message.scoped_pdu.data, Report
+    ):
+        return
+    raise AuthenticationError(
+        "Incoming message does not have the security level of the "
+        "credentials (auth=%r, priv=%r)!" % (flags.auth, flags.priv)
+    )
+
+
 def decrypt_message(
     message: Union[PlainMessage, EncryptedMessage], credentials: V3
 ) -> PlainMessage:
@@ -452,6 +478,7 @@ class UserSecurityModel(
             raise UnknownUser(f"Unknown user {security_name!r}")
 
         verify_authentication(message, credentials, security_params)
+        verify_security_level(message, credentials)
         message = decrypt_message(message, credentials)
         validate_usm_message(message)
         return message
@@ -565,6 +592,12 @@ def validate_usm_message(message: PlainMessage) -> None:
         if varbind.oid in errors:
             msg = errors[varbind.oid]
             raise SnmpError(f"Error response from remote device: {msg}")
+    if isinstance(message.scoped_pdu.data, Report):
+        # A report is never the answer to a request. It must not be handed
+        # out as if it were data (it may not even be authenticated).
+        raise SnmpError(
+            "Unexpected report from remote device: %r" % (pdu.varbinds,)
+        )
 
 
 def create() -> UserSecurityModel:
